@@ -76,7 +76,10 @@ BOUNDS = {
              "operated_mapping_matrix} taken from a separately built identical inversion; 8 subsets of the five further slots "
              "(data_vector_mapper, curvature_matrix_mapper_diag, mapper_operated_mapping_matrix_dict, linear_func_operated_mapping_matrix_dict, "
              "data_linear_func_matrix_dict); sequences of k=2 inversions sharing one Preloads object; factory: settings.use_w_tilde x "
-             "preloads.use_w_tilde in {None,True,False} x preloads.w_tilde present/absent, and preloads=None; positive-negative solver",
+             "preloads.use_w_tilde in {None,True,False} x preloads.w_tilde present/absent, and preloads=None; shared-tables histories: one "
+             "WTildeImaging object used by 3-4 successive w-tilde inversions with two independent symbolic data vectors and different "
+             "mappers / mixes, shared via one Preloads object or via DatasetInterface, each compared with the mapping formalism on its "
+             "own inputs; positive-negative solver",
     "thorough": "as quick plus geometry 'plus' (6x6 frame, 7 unmasked pixels, sub-size 2 with fractional mapping weights, 2x3 / 3x2 meshes), "
                 "mixes [function list], [function list, mapper, mapper], [mapper, F, G], [G, mapper, mapper, F] (heterogeneous mixes with all subsets), k=3, all 31 non-empty subsets of the five further slots and "
                 "all ten slots together, slot values donated by an identical inversion of the other formalism, factory cases with the "
@@ -332,6 +335,8 @@ def _linear_objs(g, mask, mix):
             elif ch == "F":
                 out.append(aa.m.MockLinearObjFuncList(parameters=2, grid=aa.Grid2D.from_mask(mask=mask),
                                                       mapping_matrix=g["func"].copy()))
+            elif ch == "N":     # the second mapper (other mesh, other regularization) on its own
+                out.append(_mapper(g, mask, g["mesh2"], True))
             elif ch == "G":
                 out.append(aa.m.MockLinearObjFuncList(parameters=3, grid=aa.Grid2D.from_mask(mask=mask),
                                                       mapping_matrix=g["func3"].copy()))
@@ -506,6 +511,56 @@ def _body_factory(inp, geom, mix):
     return A, E
 
 
+def body_tables(inp, geom, steps, share):
+    """ONE w-tilde tables object (WTildeImaging: depends on noise map and PSF only) shared by successive w-tilde inversions
+    whose DATA and/or linear objects differ; every inversion must equal the mapping-formalism inversion of its own inputs"""
+    with _check_reconstruction(False):
+        return _body_tables(inp, geom, steps, share)
+
+
+def _body_tables(inp, geom, steps, share):
+    import autoarray as aa
+    g = _geom(geom)
+    noise = _noise(g, inp)
+    datas = {"d": np.asarray(inp["d"]).reshape(-1), "e": np.asarray(inp["e"]).reshape(-1)}
+    base = _dataset(g, datas["d"], noise)
+    tables = base.w_tilde                       # computed once; users share it through Preloads or a DatasetInterface
+    pl = aa.Preloads(w_tilde=tables)
+    A, E = {}, {}
+    for i, (mix, which) in enumerate(steps):
+        pre = "%s|#%d %s data=%s|" % (share, i, mix, which)
+        ref = {}
+        _observe(_fresh_inversion(g, datas[which], noise, mix, False), OBSERVED, ref, "")
+        if share == "preloads":
+            ds = _dataset(g, datas[which], noise)
+            objs = _linear_objs(g, ds.mask, mix)
+            inv = hx.attempt(lambda: aa.Inversion(dataset=ds, linear_obj_list=objs, settings=_settings(True), preloads=pl))
+        else:
+            ds = aa.DatasetInterface(data=aa.Array2D(values=np.array(datas[which], copy=True), mask=base.mask),
+                                     noise_map=base.noise_map, grids=base.grids, convolver=base.convolver, w_tilde=tables)
+            objs = _linear_objs(g, base.mask, mix)
+            inv = hx.attempt(lambda: aa.Inversion(dataset=ds, linear_obj_list=objs, settings=_settings(True)))
+        if isinstance(inv, hx.Raised):
+            A[pre + "construct"], E[pre + "construct"] = inv, "constructed"
+            continue
+        A[pre + "formalism"], E[pre + "formalism"] = type(inv).__name__, "InversionImagingWTilde"
+        _observe(inv, OBSERVED, A, pre)
+        for nme in OBSERVED:
+            E[pre + nme] = ref[nme]
+    return A, E
+
+
+def case_tables(ctx, geom, steps, share):
+    g = _geom(geom)
+    inputs = {"d": V.real_array("d", (g["n"],)), "e": V.real_array("e", (g["n"],))}
+    ctx.set_case(geom=geom, steps=steps, share=share)
+    kw = {"geom": geom, "steps": steps, "share": share}
+    ctx.set_inputs(**inputs)
+    A, E = body_tables(inputs, **kw)
+    _check_in_order(ctx, A, E, _tol(E, 1e-9), None)
+    hx.validate(ctx, body_tables, inputs, kw, A, every=1)
+
+
 CONCRETE_KEYS = ("curvature_matrix", "regularization_matrix", "curvature_reg_matrix", "log_det_curvature_reg_matrix_term",
                  "log_det_regularization_matrix_term", "curvature_matrix_reread")
 
@@ -594,7 +649,7 @@ EXT_QUICK = [[s_] for s_ in EXT_SLOTS] + [G1, G2, list(EXT_SLOTS)]
 NOISE_SUBSETS = [["curvature_matrix"], ["w_tilde"], ["operated_mapping_matrix"], ["regularization_matrix", "log_det_regularization_matrix_term"],
                  ["w_tilde", "curvature_matrix", "operated_mapping_matrix"], list(SLOTS)]
 
-BODIES = {"case_seq": body_seq, "case_factory": body_factory}
+BODIES = {"case_seq": body_seq, "case_factory": body_factory, "case_tables": body_tables}
 
 
 def _all_subsets():
@@ -607,6 +662,9 @@ def _all_subsets():
 
 # cases with a data-dependent branch / non-linear terms (the engine retries `unknown` with up to 14x this timeout); on the
 # clean tree the branching cases have 2-3 paths - under a fault every differing inversion adds a fork, hence the path cap
+TABLE_STEPS = ((("M", "d"), ("M", "e"), ("M", "d")),                 # data differ, back and forth
+               (("M", "d"), ("N", "d"), ("FM", "e"), ("M", "d")))     # mappers / mixes differ on the same tables, then data too
+TABLE_STEPS_MORE = ((("N", "e"), ("M", "e"), ("MGMF", "d")), (("FM", "d"), ("FM", "e")), (("MM", "e"), ("MF", "d"), ("MM", "d")))
 HETERO_MIXES = ("GFM", "FGM", "MGMF")
 HETERO_CORE = ((), ("curvature_matrix",), ("regularization_matrix",), ("operated_mapping_matrix",), ("w_tilde", "operated_mapping_matrix"),
                ("regularization_matrix", "log_det_regularization_matrix_term"), ("curvature_matrix", "operated_mapping_matrix"), SLOTS)
@@ -650,6 +708,11 @@ def cases(tier):
             out.append(("case_factory", {"geom": geom, "mix": mix}))
             if not quick and mix in ("M", "FM"):
                 out.append(("case_factory", {"geom": geom, "mix": mix, "check": True}, SLOW))
+    # (8) one w-tilde tables object shared by inversions with DIFFERENT data / different mappers (both orders)
+    for geom, _, k in plan:
+        for share in ("preloads", "dataset"):
+            for steps in TABLE_STEPS if quick else TABLE_STEPS + TABLE_STEPS_MORE:
+                out.append(("case_tables", {"geom": geom, "steps": [list(s_) for s_ in steps], "share": share}))
     # (7) mixes in which EVERY further slot is non-trivial: two function lists with different parameter counts (3 and 2, both
     # orders) and two mappers with different mesh sizes, so that per-object column offsets and the positional re-keying of the
     # dict slots (linear_func_operated_mapping_matrix_dict, data_linear_func_matrix_dict, mapper_operated_mapping_matrix_dict)
